@@ -708,6 +708,109 @@ theorem line_roundtrip_full (g : Grammar) (hg : grammarWF g = true) (r : Rule) (
     exact hp
 
 
+/-! ### a readable sufficient condition for `selOK` -/
+
+/-- in a `kwDistinct` list, two different positions of the list never carry the same (pos, keyword) -/
+theorem kwDistinct_pair (pre : List Rule) (r : Rule) (post : List Rule) (h : kwDistinct (pre ++ r :: post) = true)
+    (r' : Rule) (hr' : r' ∈ pre) (p : Nat) (hp' : r'.pos = some p) (hp : r.pos = some p) :
+    (r.params[p]?.map (fun q => lower q.name)) ≠ (r'.params[p]?.map (fun q => lower q.name)) := by
+  induction pre with
+  | nil => simp at hr'
+  | cons a t ih =>
+    simp only [List.cons_append, kwDistinct, Bool.and_eq_true] at h
+    rcases List.mem_cons.mp hr' with rfl | hm
+    · have h1 := h.1
+      simp only [hp', List.all_eq_true, Bool.not_eq_true', Bool.and_eq_false_iff] at h1
+      have := h1 r (by simp)
+      rcases this with h2 | h2
+      · simp [hp] at h2
+      · intro e; rw [e] at h2; simp at h2
+    · exact ih h.2 hm
+
+/-- **selOK_of_fields.**  Rule selection is not disturbed when no field other than the rule's own keyword
+    is spelt like a keyword of the component type (this is where a value equal to a keyword --
+    finding C06-a -- is excluded). -/
+theorem selOK_of_fields (g : Grammar) (hg : grammarWF g = true) (r : Rule) (hr : r ∈ g.rules) (fields : List Str)
+    (hown : ∀ p, r.pos = some p → ∃ q, r.params[p]? = some q ∧ fields[p]? = some q.name)
+    (hother : ∀ i f, fields[i]? = some f → r.pos ≠ some i → (typeKeywords g r.type).contains (lower f) = false) :
+    selOK g r fields = true := by
+  simp only [grammarWF, Bool.and_eq_true, Bool.not_eq_true'] at hg
+  obtain ⟨⟨⟨⟨⟨⟨⟨⟨⟨⟨⟨_, gwf⟩, _⟩, gkd⟩, _⟩, _⟩, _⟩, _⟩, _⟩, _⟩, _⟩, _⟩ := hg
+  have hkd : kwDistinct (rulesOf g r.type) = true := by
+    have := List.all_eq_true.mp gkd r.type (by
+      rw [List.mem_eraseDups]; exact List.mem_map.mpr ⟨r, hr, rfl⟩)
+    exact this
+  -- a rule of the type does not react unless it is at r's own keyword position with r's own keyword
+  have hno : ∀ r' ∈ rulesOf g r.type, (∀ p, r.pos = some p → r'.pos = some p →
+      (r.params[p]?.map (fun q => lower q.name)) ≠ (r'.params[p]?.map (fun q => lower q.name))) → noMatch fields r' = true := by
+    intro r' hr' hdiff
+    have hr'g : r' ∈ g.rules := (List.mem_filter.mp hr').1
+    have hty : r'.type = r.type := by simpa using (List.mem_filter.mp hr').2
+    unfold noMatch
+    cases hp' : r'.pos with
+    | none => rfl
+    | some p' =>
+      simp only
+      cases hf : fields[p']? with
+      | none => rfl
+      | some f =>
+        cases hq : r'.params[p']? with
+        | none => rfl
+        | some prm =>
+          simp only [bne_iff_ne, ne_eq]
+          by_cases hsame : r.pos = some p'
+          · obtain ⟨q, hq1, hq2⟩ := hown p' hsame
+            rw [hf] at hq2; cases hq2
+            have := hdiff p' hsame hp'
+            rw [hq1, hq] at this
+            simpa using this
+          · have hk := hother p' f hf hsame
+            -- prm is a keyword parameter of a rule of the type
+            have hprmk : prm.kind = .keyword := by
+              have rwf := List.all_eq_true.mp gwf r' hr'g
+              simp only [ruleWF2, Bool.and_eq_true, beq_iff_eq] at rwf
+              have hpos := rwf.1.1.1.1.2
+              have hshape := shapeOf_params r'.params
+              generalize hsh : shapeOf r'.params = sh at *
+              obtain ⟨A, k, B, C⟩ := sh
+              cases k with
+              | none => simp [hp'] at hpos
+              | some kq =>
+                simp only [Option.map_some, hp', Option.some.injEq] at hpos
+                simp only [Shape.params] at hshape
+                have : r'.params[p']? = some kq := by rw [← hshape, hpos]; simp
+                rw [hq] at this; cases this
+                exact shapeOf_k_keyword r'.params prm (by rw [hsh])
+            have hmem : lower prm.name ∈ typeKeywords g r.type := by
+              unfold typeKeywords
+              rw [List.mem_flatMap]
+              refine ⟨r', hr', ?_⟩
+              rw [List.mem_map]
+              refine ⟨prm, ?_, rfl⟩
+              rw [List.mem_filter]
+              exact ⟨List.mem_of_getElem? hq, by simp [hprmk]⟩
+            intro e
+            rw [e] at hk
+            have : (typeKeywords g r.type).contains (lower prm.name) = true := by simpa using hmem
+            rw [this] at hk; cases hk
+  unfold selOK
+  cases hp : r.pos with
+  | none =>
+    simp only [List.all_eq_true]
+    intro r' hr'
+    exact hno r' hr' (fun p h => by rw [hp] at h; cases h)
+  | some p =>
+    simp only [List.all_eq_true]
+    intro r' hr'
+    obtain ⟨post, hsplit⟩ := mem_split_takeWhile _ r (mem_rulesOf g r hr)
+    have hmem : r' ∈ rulesOf g r.type := by rw [hsplit]; simp [hr']
+    apply hno r' hmem
+    intro p2 h1 h2
+    rw [hp] at h1; cases h1
+    rw [hsplit] at hkd
+    exact kwDistinct_pair _ r post hkd r' hr' p h2 hp
+
+
 /-- **table_wf2.**  The grammar extracted from the checked-out `grammar.py` satisfies `grammarWF`: every
     rule is nodes / at most one keyword / nodes / arguments with `pos` at the keyword, keywords are
     plain tokens, a rule without keyword is the first of its type, keyword rules of a type are
